@@ -68,6 +68,9 @@ type c10Case struct {
 	useNum bool
 	tz     bool
 	vars   string
+	// modelOnly: only the comparison with the reference evaluator (the
+	// stand-alone per-item check would not run under the same conditions)
+	modelOnly bool
 }
 
 func unwrap1(items []any, lax bool) []any {
@@ -132,6 +135,9 @@ func checkFilter(c *h.Ctx, k *c10Case) {
 				c.Violate("model", f, "Query(P ?(C)): "+detail, cs)
 			}
 		}
+	}
+	if k.modelOnly {
+		return
 	}
 	items := unwrap1(op.Items, k.lax)
 	if len(items) > 0 {
@@ -345,10 +351,12 @@ func runC10(c *h.Ctx) {
 			d.MaxMembers = 1
 			vars = stdVars1
 		}
+		modelOnly := false
 		if !lax && containsTopLevelAny(prefix) {
-			// below .** the condition runs with structural errors ignored; the stand-alone check does not
+			// below .** the condition runs with structural errors ignored; the
+			// stand-alone check does not: the reference evaluator decides alone
 			c.Skip("kept-iff-true", "strict-prefix-has-recursive-descent")
-			continue
+			modelOnly = true
 		}
 		if (exposesOrder(&gen.Path{Root: prefix}) || exposesOrder(&gen.Path{Root: whole})) && (hasMethod(prefix, "keyvalue") || hasMethod(whole, "keyvalue")) {
 			// the triples generated by .keyvalue() have three members: expanding them is order-dependent
@@ -369,7 +377,7 @@ func runC10(c *h.Ctx) {
 			// a number only a UseNumber decode can hold (beyond float64)
 			docTxt = gen.InjectHuge(r, docTxt)
 		}
-		checkFilter(c, &c10Case{lax: lax, prefix: prefix, cond: cond, cond2: cond2, doc: docTxt, useNum: useNum, tz: r.IntN(3) == 0, vars: vars})
+		checkFilter(c, &c10Case{lax: lax, prefix: prefix, cond: cond, cond2: cond2, doc: docTxt, useNum: useNum, tz: r.IntN(3) == 0, vars: vars, modelOnly: modelOnly})
 	}
 	// directed: conditions whose exists() operand keeps an earlier item and
 	// rejects the one visited last (subscript lists, ranges, .keyvalue(), .**)
@@ -403,6 +411,26 @@ func runC10(c *h.Ctx) {
 				for _, useNum := range []bool{false, true} {
 					checkFilter(c, &c10Case{lax: lax, prefix: root.Clone(), cond: cn, doc: d, useNum: useNum, vars: stdVars1})
 				}
+			}
+		}
+	}
+	// directed: like_regex conditions under i / q / iq over strings that differ
+	// by case in the ways Unicode folds case (which is not lower-casing both
+	// sides: final sigma, long s, micro sign, dotted capital I, Kelvin sign)
+	foldDoc := `["ΛΟΓΟΣ.","λογος.","Λογος. Α.Ε.","λογοσ.","ſ.","s.","S.","µm","μm","Μm","İstanbul","istanbul","i̇stanbul","K","k","K","ß","ss","a.c","abc","A.C"]`
+	for _, pat := range []string{"ΛΟΓΟΣ.", "λογος.", "s.", "ſ.", "µm", "μm", "İ", "i", "k", "K", "ss", "a.c", "Σ", "ς"} {
+		for _, fl := range []string{"iq", "i", "q", "", "qi", "iqs"} {
+			for _, lax := range []bool{true, false} {
+				kk++
+				if !c.Mine(kk) {
+					continue
+				}
+				cn := &gen.N{K: gen.KRegex, A: &gen.N{K: gen.KCurrent}, S: pat, Flags: fl}
+				if kk%3 == 0 {
+					cn = &gen.N{K: gen.KUn, S: "!", A: cn}
+				}
+				root := &gen.N{K: gen.KRoot, Next: &gen.N{K: gen.KAnyArray}}
+				checkFilter(c, &c10Case{lax: lax, prefix: root, cond: cn, doc: foldDoc, vars: stdVars1})
 			}
 		}
 	}
